@@ -1243,7 +1243,10 @@ def call_contract(ex, key, args, kwargs, st, node, ctor_self=None):
             sc_x = spec.Scope(env, bad.heap, pre_heap, env, bad.alloc, pre_alloc, bad.ghost)
             for label, text in xp.items():
                 bad.assume(spec.sv_bool(text, sc_x))
-        ex.sink_raise(bad, ExcVal(ename, [], node), node)
+        xv = ExcVal(ename, [], node)
+        # the classes with an exact (`raises`, iff) clause are raised on their own paths above: this one is none of them
+        xv.excluded = set(c.raises)
+        ex.sink_raise(bad, xv, node)
     for cond in conds.values():
         st.assume(z3.Not(cond))
     if st.infeasible():
